@@ -4,6 +4,42 @@ import json, os
 ROOT = os.path.dirname(os.path.dirname(os.path.abspath(__file__)))
 
 CHECKS = {
+ "C01": dict(cat="model_checking", engine="seqx+world+refctl", ref="§2 C01",
+   technique="exhaustive history exploration (depth 3/4) over an adversary + legitimate-controller + application alphabet against the real transport over TCP, reference model compared after every event",
+   text="Every history up to the depth bound over 24/33 symbols (two adversary connections, a legitimate controller, the application) is replayed on a fresh real system; after every event refusal, non-disclosure, absence of EVENTs, values, callback counters and stored pairings are compared with the reference model.",
+   note="Adversary knowledge = what it derives from its own exchanges; histories longer than the bound and more than two adversary connections are not explored."),
+ "C02": dict(cat="model_checking", engine="seqx+world+refctl", ref="§2 C02",
+   technique="exhaustive history exploration (depth 3/4) over the pair-setup message alphabet with real SRP over TCP; stored pairings compared with the reference model after every event",
+   text="Every history of the bound's length over 19/24 pair-setup symbols on a legitimate and an adversary connection; after every event the pairing store must equal the model (L's key iff a complete genuine exchange happened on L's connection).",
+   note="Message constructors are the menu in DESIGN §2 C02; arbitrary byte strings are C13's business."),
+ "C03": dict(cat="model_checking", engine="seqx+world+refctl", ref="§2 C03",
+   technique="exhaustive history exploration (depth 3/4, every node replayed) over the pair-verify alphabet, with destructive end-of-history probes of each connection's verified/encrypted status",
+   text="Every history up to the depth bound over 16/22 pair-verify symbols on an adversary and a legitimate connection; every tree node is replayed on a fresh system and ends with probes (plaintext still answered and refused; ciphertext under own exchange keys not served; verified connection serves).",
+   note="Whether a start is accepted is observed, only the verified status is predicted."),
+ "C04": dict(cat="exploration", engine="world+refctl", ref="§2 C04",
+   technique="exhaustive execution of an explicit input-partition grid by an independent specification-derived controller against the real transport",
+   text="Every cell of the stated grid (codes × identifiers × keys × request sizes × restart × connection reuse, plus leading-zero SRP cells and wrong code) runs the complete pair-setup / pair-verify / encrypted request sequence; the controller verifies every accessory proof, signature and key.",
+   note="The universal over all codes/keys is covered only through code-visible branches; see DESIGN §2 C04 'Limit'."),
+ "C07": dict(cat="model_checking", engine="scripted-conn environment explorer", ref="§2 C07",
+   technique="deviation-bounded exhaustive exploration of network segmentations / timeouts / buffer policies and of read-vs-session-switch placements on a real hap.Connection over a scripted net.Conn",
+   text="All message sequences over 10 boundary lengths × 6 buffer policies with 0, 1 and selected 2 environment deviations (split at every offset, coalesce, timeout), plus every placement of reads relative to install-cryptographer / write-response / first-ciphertext; exact-bytes, no-spurious-error and promptness oracles per execution.",
+   note="Blocking is modelled by a timeout on an exhausted script; sender is the reference framing."),
+ "C08": dict(cat="model_checking", engine="sched (cooperative scheduler, preemption bounding) + -race pass", ref="§2 C08",
+   technique="stateless exploration of all goroutine interleavings up to a preemption bound under a cooperative scheduler (sync rewritten through go build -overlay), plus a free-running -race pass",
+   text="2-writer scenarios are explored without bound, 3–4 writer scenarios with preemption bound 2/3; per schedule the wire must decrypt in arrival order and consist of whole payloads.",
+   note="Code between scheduling points is atomic under the scheduler; unsynchronised accesses are left to the free-running -race pass; channels are not modelled (watchdog → inconclusive)."),
+ "C13": dict(cat="exploration", engine="world+refctl", ref="§2 C13",
+   technique="exhaustive enumeration of a mechanically derived malformed-input alphabet in every protocol state × endpoint against the real transport; panic, response, same-connection and new-connection recovery oracles",
+   text="≈5.8k (quick) / ≈27k (thorough) inputs derived from the correct next messages (prefixes, item edits, lengths, tag flips, all state/method bytes, hostile JSON) in 5 protocol states over all endpoints.",
+   note="Requests are well-formed HTTP; malformed HTTP is answered by net/http before hc code runs."),
+ "C14": dict(cat="exploration", engine="catalog", ref="§2 C14",
+   technique="exhaustive enumeration of accessory compositions (singles, pairs, triples, two large ones) over every accessory/service constructor × explicit/automatic ids; id uniqueness, rebuild stability and HAP JSON well-formedness",
+   text="All singles and pairs over ≈230 accessory templates × 5 id choices (quick: first element restricted), triples over a reduced set, two large compositions; each container built twice.",
+   note="JSON is json.Marshal of the container (what the /accessories handler writes); panicking constructors are C15's."),
+ "C17": dict(cat="exploration", engine="enumx (reflective reference encoder)", ref="§2 C17",
+   technique="exhaustive enumeration of field-boundary deviations (1, 2, thorough 3 simultaneous) over every RTP message type and synthetic all-kinds structs, differential against an independent reflective encoder; exhaustive small decoder inputs",
+   text="Every leaf field of every target type moved through its boundary alphabet, all pairs (triples) of deviations; all byte strings ≤2 and all prefixes/edits of valid encodings as decoder input.",
+   note="Empty values may be encoded as no item; nil and empty are identified; one open known finding (inline lists with multi-field elements)."),
  "C05": dict(cat="fault_enumeration", engine="enumx+refctl", ref="§2 C05",
    technique="exhaustive fault enumeration over the ciphertext stream (every bit flip, truncation, frame deletion/duplication/permutation, reflection, cross-session frame) against hc's real receiving session",
    text="Sender is the independent reference framing, receiver hc's real session. For 14 stream shapes every single-bit flip, every truncation offset and every frame-level rearrangement (≤4 frames) is applied and the receiver must release only an unmodified frame-granular prefix and report an error no later than the first altered frame; thorough adds all pairs from a reduced menu.",
